@@ -62,6 +62,47 @@ DEFECTS = [
           suggested_fix="none (behaviour-changing); recorded as known finding " + k["id"]) for k in KNOWN]
 
 
+# --------------------------------------------------------------------------- comparison
+# tools/check.py stops exploring after 20 divergences, explained or not.  Divergences that are
+# explained by a recorded finding (implementation == model, spec differs, every tag that fired is
+# listed in KNOWN_FINDINGS.json - exactly check.py's own rule) are therefore handed to check.py only
+# the first two times per tag (enough for its KNOWN-FINDING line); later ones are counted here.
+_known_tags = None
+_reported = {}
+_suppressed = {}
+
+
+def _known():
+    global _known_tags
+    if _known_tags is None:
+        import common
+        _known_tags = {f["tag"] for f in common.load_known().get("findings", []) if f.get("property") == PROP}
+    return _known_tags
+
+
+def compare_line(case, i, il, m, s, tags):
+    impl_spec = il.split(" ## ")[0]
+    if m.startswith("FAULT"):
+        return ("spec", "the Lean model reaches a fault here (dangling pointer / impossible branch): " + m)
+    if s not in ("", "*") and impl_spec != s:
+        if il == m and tags and all(t in _known() for t in tags):
+            if all(_reported.get(t, 0) >= 2 for t in tags):
+                for t in tags:
+                    _suppressed[t] = _suppressed.get(t, 0) + 1
+                return None
+            for t in tags:
+                _reported[t] = _reported.get(t, 0) + 1
+        return ("spec", "implementation differs from the specification")
+    if il != m:
+        kind = "spec" if impl_spec != m.split(" ## ")[0] and s in ("", "*") else "model"
+        return (kind, "implementation differs from the Lean model")
+    return None
+
+
+def extra_coverage():
+    return {"known_finding_cases": {t: _reported.get(t, 0) + _suppressed.get(t, 0) for t in sorted(set(_reported) | set(_suppressed))}}
+
+
 # --------------------------------------------------------------------------- values
 # Python mirror of JVal: None | bool | ('i', v) | ('u', v) | ('d', bits, text or None) | bytes | list | dict(bytes -> value)
 
@@ -592,7 +633,7 @@ def enum_cases(tier):
 def gen(rng, tier):
     for k in KNOWN:
         yield {"lines": list(k["witness"]), "keep": 1}
-    n = 5000 if tier == "quick" else 60000
+    n = 12000 if tier == "quick" else 100000
     for _ in range(n):
         yield gen_patch_case(rng)
     for _ in range(n):
